@@ -1,4 +1,158 @@
+/-
+C13 — signed messages are accepted only with the exact MAC over the exact bytes.
+
+Statement (properties.jsonl): signed decoding returns a message exactly when the last 32 bytes
+equal HMAC-SHA256 under the session key of all preceding bytes and those bytes decode; any bit
+flip, truncation, extension, reordering or different key causes rejection.
+
+The MAC is a parameter `mac key data` with the single hypothesis that it returns 32 bytes
+(`Spec.hmacSha256` does: `hmac_length`), so these theorems do not depend on C08.  The first
+sentence is `iff`.  The second sentence cannot be literally true of any MAC-based scheme — a
+mutated buffer that happens to satisfy the MAC equation again *is* a correctly signed buffer — so
+it is proved in the exact form "every other buffer/key is rejected unless the MAC equation holds
+for it", and the residual cases are reduced to named collisions of the MAC (`…_needs_collision`);
+excluding those is the cryptographic assumption on HMAC-SHA256, which is not claimed here.
+-/
+import EphVerif.Lemmas.C13Verify
 import EphVerif.Spec.Message
+import EphVerif.Spec.Hmac
+
 namespace EphVerif.C13
-theorem placeholder : True := trivial
+open EphVerif.Message EphVerif.MessageSpec EphVerif.Gen.C15
+
+/-- a MAC with 32-byte tags -/
+def Mac32 (mac : Bytes → Bytes → Bytes) : Prop := ∀ k d, (mac k d).length = 32
+
+/-- the driver's MAC (RFC 2104 HMAC-SHA256, property C08) qualifies -/
+theorem hmac_length : Mac32 EphVerif.Spec.hmacSha256 := fun k d => EphVerif.Spec.hmacSha256_length k d
+
+/-- generated-constant obligation: the tag length the code cuts off is the property's 32 -/
+theorem digest_size : kDigestSize = 32 := rfl
+
+/-- C13, first sentence: ∀ buf key m, `decode_signed buf key = ok m` ↔ `32 ≤ |buf|` ∧ the last 32
+    bytes are `mac key (first |buf|−32 bytes)` ∧ those first bytes decode to `m`. -/
+theorem iff (mac : Bytes → Bytes → Bytes) (hmac : Mac32 mac) : SignedExact mac decode (decodeSigned mac) := by
+  intro buf key m
+  rw [decodeSigned_eq]
+  by_cases hlt : buf.length < 32
+  · rw [if_pos hlt]
+    constructor
+    · intro h; cases h
+    · intro h; omega
+  · rw [if_neg hlt]
+    cases hv : hmacVerify mac key (buf.take (buf.length - 32)) (buf.drop (buf.length - 32))
+    · have hne : ¬ buf.drop (buf.length - 32) = mac key (buf.take (buf.length - 32)) := by
+        intro h; rw [(hmacVerify_iff mac hmac _ _ _).mpr h] at hv; cases hv
+      simp only [Bool.false_eq_true, if_false]
+      constructor
+      · intro h; cases h
+      · intro h; exact absurd h.2.1 hne
+    · have heq := (hmacVerify_iff mac hmac _ _ _).mp hv
+      simp only [if_true]
+      constructor
+      · intro h; exact ⟨by omega, heq, h⟩
+      · intro h; exact h.2.2
+
+/-- the MAC equation of a buffer under a key -/
+def Tagged (mac : Bytes → Bytes → Bytes) (key buf : Bytes) : Prop :=
+  32 ≤ buf.length ∧ buf.drop (buf.length - 32) = mac key (buf.take (buf.length - 32))
+
+/-- C13, second sentence, exact form: a buffer (however obtained: flipped bits, truncated, extended,
+    reordered, checked under another key) that does not satisfy the MAC equation is rejected —
+    rejected, not `oob`. -/
+theorem rejected_unless_tagged (mac : Bytes → Bytes → Bytes) (hmac : Mac32 mac) (buf key : Bytes)
+    (h : ¬ Tagged mac key buf) : decodeSigned mac buf key = .reject := by
+  cases hd : decodeSigned mac buf key with
+  | reject => rfl
+  | oob => exact absurd hd (decodeSigned_ne_oob mac buf key)
+  | ok m => exact absurd ⟨((iff mac hmac) buf key m |>.mp hd).1, ((iff mac hmac) buf key m |>.mp hd).2.1⟩ h
+
+/-- signing then verifying decodes the plain encoding (so, with C15, gives the message back) -/
+theorem sign_then_verify (mac : Bytes → Bytes → Bytes) (hmac : Mac32 mac) (m : Msg) (key : Bytes) :
+    decodeSigned mac (encodeSigned mac m key) key = decode (encode m) := by
+  have hm : (mac key (encode m)).length = 32 := hmac _ _
+  have hl : (encodeSigned mac m key).length - 32 = (encode m).length := by simp [encodeSigned, hm]
+  have ht : (encodeSigned mac m key).take ((encodeSigned mac m key).length - 32) = encode m := by
+    rw [hl]; simp [encodeSigned]
+  have hdr : (encodeSigned mac m key).drop ((encodeSigned mac m key).length - 32) = mac key (encode m) := by
+    rw [hl]; simp [encodeSigned]
+  rw [decodeSigned_eq, if_neg (by simp [encodeSigned, hm]), ht, hdr, (hmacVerify_iff mac hmac _ _ _).mpr rfl]
+  rfl
+
+/-- acceptance of `body ‖ tag` pins the tag -/
+theorem accepted_tag (mac : Bytes → Bytes → Bytes) (hmac : Mac32 mac) (body tag key : Bytes) (m : Msg) (ht : tag.length = 32)
+    (h : decodeSigned mac (body ++ tag) key = .ok m) : tag = mac key body ∧ decode body = .ok m := by
+  obtain ⟨_, h2, h3⟩ := split_body_tag body tag ht
+  have := (iff mac hmac (body ++ tag) key m).mp h
+  rw [h2, h3] at this
+  exact ⟨this.2.1, this.2.2⟩
+
+/-- any change confined to the tag (every single- or multi-bit flip inside the last 32 bytes) is
+    rejected: no assumption on the MAC needed -/
+theorem tag_change_rejected (mac : Bytes → Bytes → Bytes) (hmac : Mac32 mac) (body tag tag' key : Bytes) (m : Msg)
+    (ht : tag.length = 32) (ht' : tag'.length = 32) (hne : tag' ≠ tag)
+    (h : decodeSigned mac (body ++ tag) key = .ok m) : decodeSigned mac (body ++ tag') key = .reject := by
+  apply rejected_unless_tagged mac hmac
+  obtain ⟨_, h2, h3⟩ := split_body_tag body tag' ht'
+  rintro ⟨_, heq⟩
+  rw [h2, h3] at heq
+  exact hne (heq.trans (accepted_tag mac hmac body tag key m ht h).1.symm)
+
+/-- a change to the body under the old tag is accepted only if the new body collides with the old
+    one under the MAC -/
+theorem body_change_needs_collision (mac : Bytes → Bytes → Bytes) (hmac : Mac32 mac) (body body' tag key : Bytes)
+    (m m' : Msg) (ht : tag.length = 32) (h : decodeSigned mac (body ++ tag) key = .ok m)
+    (h' : decodeSigned mac (body' ++ tag) key = .ok m') : mac key body' = mac key body :=
+  (accepted_tag mac hmac body' tag key m' ht h').1.symm.trans (accepted_tag mac hmac body tag key m ht h).1
+
+/-- … hence rejected for a MAC without that collision -/
+theorem body_change_rejected (mac : Bytes → Bytes → Bytes) (hmac : Mac32 mac) (body body' tag key : Bytes) (m : Msg)
+    (ht : tag.length = 32) (h : decodeSigned mac (body ++ tag) key = .ok m)
+    (hnc : mac key body' ≠ mac key body) : decodeSigned mac (body' ++ tag) key = .reject := by
+  apply rejected_unless_tagged mac hmac
+  obtain ⟨_, h2, h3⟩ := split_body_tag body' tag ht
+  rintro ⟨_, heq⟩
+  rw [h2, h3] at heq
+  exact hnc (heq.symm.trans (accepted_tag mac hmac body tag key m ht h).1)
+
+/-- a buffer accepted under two keys exhibits a cross-key collision on its body -/
+theorem other_key_needs_collision (mac : Bytes → Bytes → Bytes) (hmac : Mac32 mac) (buf key key' : Bytes) (m m' : Msg)
+    (h : decodeSigned mac buf key = .ok m) (h' : decodeSigned mac buf key' = .ok m') :
+    mac key' (buf.take (buf.length - 32)) = mac key (buf.take (buf.length - 32)) :=
+  ((iff mac hmac buf key' m').mp h').2.1.symm.trans ((iff mac hmac buf key m).mp h).2.1
+
+/-- every truncation of an accepted buffer is rejected unless its own last 32 bytes are the MAC of
+    what precedes them; below 32 bytes always -/
+theorem truncation_rejected (mac : Bytes → Bytes → Bytes) (hmac : Mac32 mac) (buf key : Bytes) (n : Nat)
+    (h : ¬ Tagged mac key (buf.take n)) : decodeSigned mac (buf.take n) key = .reject :=
+  rejected_unless_tagged mac hmac _ key h
+
+theorem short_rejected (mac : Bytes → Bytes → Bytes) (buf key : Bytes) (h : buf.length < 32) :
+    decodeSigned mac buf key = .reject := by
+  rw [decodeSigned_eq, if_pos h]
+
+/-- every extension (bytes appended after the tag) is rejected unless the extended buffer is itself
+    correctly tagged, i.e. its new last 32 bytes are the MAC of everything before them -/
+theorem extension_rejected (mac : Bytes → Bytes → Bytes) (hmac : Mac32 mac) (buf ext key : Bytes)
+    (h : ¬ Tagged mac key (buf ++ ext)) : decodeSigned mac (buf ++ ext) key = .reject :=
+  rejected_unless_tagged mac hmac _ key h
+
+/-! ### non-vacuity (a toy 32-byte MAC evaluated by the kernel; the driver runs the real HMAC) -/
+
+/-- toy MAC: key length, data length and first data byte, padded to 32 bytes -/
+def toyMac (k d : Bytes) : Bytes := [UInt8.ofNat k.length, UInt8.ofNat d.length, d.headD 0] ++ List.replicate 29 0
+
+theorem toyMac32 : Mac32 toyMac := fun _ _ => by simp [toyMac]
+
+def sampleMsg : Msg := ⟨4, 5, .handshake 7 9 4⟩
+
+example : decodeSigned toyMac (encodeSigned toyMac sampleMsg [1, 2, 3]) [1, 2, 3] = .ok sampleMsg := by decide
+/-- wrong key (the toy MAC sees the key length) -/
+example : decodeSigned toyMac (encodeSigned toyMac sampleMsg [1, 2, 3]) [1, 2] = .reject := by decide
+/-- truncated by one byte -/
+example : decodeSigned toyMac ((encodeSigned toyMac sampleMsg [1, 2, 3]).dropLast) [1, 2, 3] = .reject := by decide
+/-- extended by one byte -/
+example : decodeSigned toyMac (encodeSigned toyMac sampleMsg [1, 2, 3] ++ [0]) [1, 2, 3] = .reject := by decide
+example : Tagged toyMac [1, 2, 3] (encodeSigned toyMac sampleMsg [1, 2, 3]) := by unfold Tagged; decide
+
 end EphVerif.C13
